@@ -360,6 +360,26 @@ func runDecStd(s *Scen, script []ReadStep) *decRun {
 // returns the value for the standard library and for the fork (own Number type).
 func buildValue(text []byte, target int, typeSeed uint64) (std any, fork any, ok bool) {
 	flakyCtl.FailAt = 0
+	if target == TRedirect || target == TTrust {
+		var v any
+		dec := sj.NewDecoder(bytes.NewReader(text))
+		dec.UseNumber()
+		if err := dec.Decode(&v); err != nil {
+			return nil, nil, false
+		}
+		if target == TTrust {
+			if !jr.Valid(text) {
+				return nil, nil, false
+			}
+			// std side: the model output is assembled by trustModel (no standard-library counterpart)
+			return trustMarker{typeSeed, string(text)}, wrapShape(typeSeed, &Trust{Text: string(text)}), true
+		}
+		fv := toFork(v)
+		if typeSeed&4 != 0 {
+			return wrapShape(typeSeed, v), wrapShape(typeSeed, Redir{V: Redir{V: fv}}), true
+		}
+		return wrapShape(typeSeed, v), wrapShape(typeSeed, Redir{V: fv}), true
+	}
 	t := NewTarget(target, typeSeed)
 	dec := sj.NewDecoder(bytes.NewReader(text))
 	dec.UseNumber()
@@ -370,7 +390,7 @@ func buildValue(text []byte, target int, typeSeed uint64) (std any, fork any, ok
 	switch target {
 	case TAny, TMapAny, TSliceAny:
 		return v, forkDyn(v), true
-	case TStruct, TMapStruct, TPtrStruct:
+	case TStruct, TMapStruct, TPtrStruct, TStatic, TArray3:
 		// struct fields of interface type may hold Numbers: decode again without UseNumber
 		t2 := NewTarget(target, typeSeed)
 		if err := sj.Unmarshal(text, t2); err != nil {
@@ -392,6 +412,12 @@ func forkDyn(v any) any {
 	return toFork(v)
 }
 
+// trustMarker stands for "a document containing a TrustMarshaler" on the model side.
+type trustMarker struct {
+	shape uint64
+	text  string
+}
+
 // normEsc rewrites the \u0008 and \u000c spellings to \b and \f inside JSON
 // string literals (the spelling differs between Go releases; the property
 // grants this normalisation).
@@ -411,6 +437,16 @@ func normEsc(b []byte) []byte {
 			inStr = false
 			out = append(out, c)
 			continue
+		}
+		if c == '\\' && i+6 < len(b) && b[i+1] == '\\' && b[i+2] == 'u' {
+			// the same spelling difference one level down: a string field tagged ",string" holds the
+			// JSON encoding of its value, so the inner \u0008 arrives as \\u0008 (vs \\b)
+			h := strings.ToLower(string(b[i+3 : i+7]))
+			if h == "0008" || h == "000c" {
+				out = append(out, '\\', '\\', map[string]byte{"0008": 'b', "000c": 'f'}[h])
+				i += 6
+				continue
+			}
 		}
 		if c == '\\' && i+1 < len(b) {
 			if b[i+1] == 'u' && i+5 < len(b) {
@@ -516,14 +552,26 @@ func pickTarget(r *gen.R, text string) int {
 	}
 	switch {
 	case strings.HasPrefix(t, "{"):
-		return []int{TAny, TMapAny, TStruct, TStruct, TMapInt, TFlakyMap, TMapStruct, TPtrStruct, TRaw, TTextMap}[r.Intn(10)]
+		return []int{TAny, TMapAny, TStruct, TStruct, TMapInt, TFlakyMap, TMapStruct, TPtrStruct, TRaw, TTextMap, TStatic, TStatic, TMapIntKey, TRedirect, TTrust}[r.Intn(15)]
 	case strings.HasPrefix(t, "["):
-		return []int{TAny, TSliceAny, TSliceInt, TFlakySlice, TRaw}[r.Intn(5)]
+		return []int{TAny, TSliceAny, TSliceInt, TFlakySlice, TRaw, TArray3, TStatic, TRedirect, TTrust}[r.Intn(9)]
 	case strings.HasPrefix(t, "\""):
-		return []int{TAny, TString, TRaw}[r.Intn(3)]
+		return []int{TAny, TString, TRaw, TBytes, TRedirect}[r.Intn(5)]
 	default:
-		return []int{TAny, TFloat, TInt, TRaw}[r.Intn(4)]
+		return []int{TAny, TFloat, TInt, TRaw, TUint64, TPtrPtrInt, TRedirect, TTrust}[r.Intn(8)]
 	}
+}
+
+var typedTargets = []int{TStruct, TStruct, TMapStruct, TPtrStruct, TStatic, TStatic, TStatic, TMapIntKey, TArray3, TBytes, TUint64, TPtrPtrInt, TMapInt, TSliceInt, TTextMap}
+
+// typedText picks a typed target and a text aimed at its Go type.
+func typedText(g *gen.G, typeSeed uint64) (int, string) {
+	t := typedTargets[g.R.Intn(len(typedTargets))]
+	text := GenFor(g, TargetType(t, typeSeed), 3)
+	if g.R.P(50) {
+		text = g.Corrupt(1+g.R.Intn(gen.NumFaults-1), text, g.Value(2))
+	}
+	return t, text
 }
 
 // Gen generates one scenario from a seed.
@@ -536,13 +584,38 @@ func Gen(seed uint64) *Scen {
 	switch x := r.Intn(100); {
 	case x < 40:
 		s.Kind = "dec"
-		p, _ := genStreamPayload(g)
+		typed := r.P(350)
+		var p string
+		var typedKinds []int
+		if typed {
+			var sb strings.Builder
+			for i, m := 0, 1+r.Intn(5); i < m; i++ {
+				k, t := typedText(g, s.TypeSeed)
+				typedKinds = append(typedKinds, k)
+				sb.WriteString(t)
+				sb.WriteString(r.Pick([]string{" ", "\n", "\t\n", "  ", "\r\n"}))
+			}
+			p = sb.String()
+		} else {
+			p, _ = genStreamPayload(g)
+		}
 		s.Payload = sim.Bytes(p)
 		s.Script = genScript(r, len(p))
 		s.EOFWithData = r.P(400)
 		s.UseNumber = r.Bool()
 		s.Disallow = r.P(200)
 		n := 1 + r.Intn(14)
+		if typed {
+			// decode the values in order with their own target types (a Token/More call in between now and then)
+			n = 0
+			for _, k := range typedKinds {
+				if r.P(100) {
+					s.DecCalls = append(s.DecCalls, DecCall{Op: []int{OpMore, OpOffset, OpBuffered}[r.Intn(3)]})
+				}
+				s.DecCalls = append(s.DecCalls, DecCall{Op: OpDecode, Target: k})
+			}
+			s.DecCalls = append(s.DecCalls, DecCall{Op: OpDecode, Target: TAny})
+		}
 		for i := 0; i < n; i++ {
 			switch y := r.Intn(100); {
 			case y < 50:
@@ -562,13 +635,20 @@ func Gen(seed uint64) *Scen {
 		n := 1 + r.Intn(6)
 		for i := 0; i < n; i++ {
 			text := g.Value(3)
-			c := EncCall{Text: sim.Bytes(text), Target: pickTarget(r, text), TypeSeed: s.TypeSeed, Escape: r.Intn(3)}
+			target := pickTarget(r, text)
+			if r.P(400) {
+				target, text = typedText(g, s.TypeSeed)
+			}
+			if target == TTrust {
+				target = TRedirect // the Encoder comparison needs a standard-library counterpart
+			}
+			c := EncCall{Text: sim.Bytes(text), Target: target, TypeSeed: s.TypeSeed, Escape: r.Intn(3)}
 			if r.P(250) {
 				c.SetIndent = true
 				c.Prefix = r.Pick([]string{"", "", ">", " "})
 				c.Indent = r.Pick([]string{"", " ", "\t", "  "})
 			}
-			if (c.Target == TFlakySlice || c.Target == TFlakyMap || c.Target == TTextMap) && r.P(500) {
+			if (c.Target == TFlakySlice || c.Target == TFlakyMap || c.Target == TTextMap || c.Target == TStatic) && r.P(500) {
 				c.FailAt = 1 + r.Intn(3)
 			}
 			s.EncCalls = append(s.EncCalls, c)
@@ -610,12 +690,16 @@ func Gen(seed uint64) *Scen {
 				c.Tape = nil
 			} else {
 				text := texts[r.Intn(len(texts))]
-				c = FnCall{Fn: r.Intn(NumF), Text: sim.Bytes(text), Target: pickTarget(r, text), TypeSeed: s.TypeSeed, Escape: r.Bool()}
+				target := pickTarget(r, text)
+				if r.P(350) {
+					target, text = typedText(g, s.TypeSeed)
+				}
+				c = FnCall{Fn: r.Intn(NumF), Text: sim.Bytes(text), Target: target, TypeSeed: s.TypeSeed, Escape: r.Bool()}
 				if c.Fn == FMarshalIndent || c.Fn == FIndent {
 					c.Prefix = r.Pick([]string{"", "", ">", " "})
 					c.Indent = r.Pick([]string{"", " ", "\t", "  "})
 				}
-				if (c.Target == TFlakySlice || c.Target == TFlakyMap || c.Target == TTextMap) && r.P(600) {
+				if (c.Target == TFlakySlice || c.Target == TFlakyMap || c.Target == TTextMap || c.Target == TStatic || c.Target == TRedirect || c.Target == TTrust) && r.P(600) {
 					c.FailAt = 1 + r.Intn(3)
 					c.Panic = r.P(350)
 				}
